@@ -170,6 +170,26 @@ def discharge_site(s, facts):
         recv = an.arg_for_call(ev["args"][0], ev["vers"], True, {"k": "ref"})
         C = strip_ref(recv)
         s.rootterm, s.idx = C, ev["args"][1]
+        I = ev["args"][1]
+        if I[0] == "agg" and I[1] == "adt" and I[2][0].startswith("core::ops::range::"):
+            # sub-slice: a..b needs a <= b <= len, a.. needs a <= len, ..b needs b <= len
+            L = mk_len(C, an)
+            nm, ops = I[2][1], I[3]
+            need = []
+            if nm == "RangeFrom" and len(ops) == 1:
+                need = [(ops[0], L)]
+            elif nm == "RangeTo" and len(ops) == 1:
+                need = [(ops[0], L)]
+            elif nm == "Range" and len(ops) == 2:
+                need = [(ops[0], ops[1]), (ops[1], L)]
+            elif nm == "RangeFull":
+                return True, "FULL"
+            else:
+                return False, ("unsupported-range", nm)
+            for x, y in need:
+                if not prove_le(an.crate, an, facts, s.b, x, y):
+                    return False, ("need-le", x, y)
+            return True, "RANGE"
         return check_idx(an, facts, s.b, ev["args"][1], C, ev["vers"])
     if k == "deref":
         L = s.place["local"]
@@ -505,6 +525,54 @@ def param_inv(crate, an, I, C):
     return False
 
 
+def prove_le(crate, an, fx, b, x, y, depth=0):
+    """x <= y at block b: from the facts, or by induction over a loop counter (x is a loop-header phi:
+    x0 <= y on entry and, under the facts of each latch, next(x) <= y)"""
+    if x == ("const", "usize", 0) or (x[0] == "const" and y[0] == "const" and x[2] <= y[2]):
+        return True
+    if fx.holds(b, lambda rel: rel.le(x, y)):
+        return True
+    if depth > 1 or not (x[0] == "phi" and len(x) == 3 and x[2].startswith("v")):
+        return False
+    hb, var = x[1], x[2]
+    if not an.cfg.dominates(hb, b):
+        return False
+    preds = [p for p, _ in an.cfg.pred[hb]]
+    if not any(an.cfg.dominates(hb, p) for p in preds):
+        return False        # not a loop header
+    for p in preds:
+        if p not in an.ver_out:
+            return False
+        t = an.var_term(an.ver_out[p], var)
+        if t == x:
+            continue
+        if an.cfg.dominates(hb, p):
+            # latch: the facts of this iteration (which hold x's guard) must give next(x) <= y
+            ok = fx.holds(p, lambda rel: rel.le(t, y))
+            if not ok:
+                # the update may sit in the latch block itself: use the facts at its end via successors' edge
+                ok = prove_le(crate, an, fx, p, t, y, depth + 1)
+            if not ok:
+                return False
+        else:
+            if not prove_le(crate, an, fx, p, t, y, depth + 1):
+                return False
+    # y must not change inside the loop: it is a term over loop-invariant values (no phi of this loop)
+    body = an.cfg.loops.get(hb, set())
+
+    def variant_in_loop(t):
+        if isinstance(t, tuple) and t:
+            if t[0] == "phi" and t[1] in body:
+                return True
+            if t[0] in ("mem", "at") and len(t) > 3:
+                ver = t[2] if t[0] == "mem" else t[3]
+                if isinstance(ver, tuple) and ver and ver[0] in ("d", "phi") and ver[1] in body:
+                    return True
+            return any(variant_in_loop(z) for z in t if isinstance(z, tuple))
+        return False
+    return not variant_in_loop(y)
+
+
 def self_iterator(crate, an, fx, ev):
     """if the receiver of this Iterator::next call is (a by_ref / &mut of) a crate
     struct that implements Iterator itself: (path of its next, base region)"""
@@ -625,7 +693,7 @@ def discharge_unwrap(s, facts):
             if ok:
                 return True, "PANICFREE"
             return False, ("worker-may-panic", why)
-        if ev is not None and ev["key"] == "std::sync::poison::mutex::Mutex::lock":
+        if ev is not None and ev["key"] in ("std::sync::poison::mutex::Mutex::lock", "std::sync::poison::mutex::Mutex::into_inner"):
             from .conc import workers_panic_free
             ok, why = workers_panic_free(crate, an.f["root"])
             if ok:
@@ -787,8 +855,14 @@ def run_mem(crate, trusted_path="/verif/tables/trusted_sites.json"):
     """-> list of result dicts, one per unsafe operation of the crate"""
     trusted = load_trusted(trusted_path)
     tindex = {}
+    import re
+
+    def norm_fn(nm):
+        # a trusted site is identified by its enclosing function, the operation and the variable: closure
+        # numbering and nesting change whenever the surrounding code is restructured
+        return re.sub(r"(::\{closure#\d+\})+$", "", nm)
     for e in trusted:
-        tindex[(e["fn"], e["kind"], e["root"])] = e
+        tindex[(norm_fn(e["fn"]), e["kind"], e["root"])] = e
     results = []
     per_fn = {}
     for p in crate.fn_paths():
@@ -809,7 +883,7 @@ def run_mem(crate, trusted_path="/verif/tables/trusted_sites.json"):
     for p, sites in per_fn.items():
         for s in sites:
             if s.status is False:
-                k = (crate.prog.pretty.get(p, p), s.kind, site_root_name(s))
+                k = (norm_fn(crate.prog.pretty.get(p, p)), s.kind, site_root_name(s))
                 if k in tindex:
                     e = tindex[k]
                     used_trusted.add(k)
@@ -836,7 +910,7 @@ def run_mem(crate, trusted_path="/verif/tables/trusted_sites.json"):
             if s.status is None:
                 s.status, s.how = False, ("callee-cycle", s.callee)
             results.append(s)
-    unused = [e for e in trusted if (e["fn"], e["kind"], e["root"]) not in used_trusted]
+    unused = [e for e in trusted if (norm_fn(e["fn"]), e["kind"], e["root"]) not in used_trusted]
     return results, unused
 
 
